@@ -49,6 +49,26 @@ def _gen_plan(seed, tier):
         plan['modes'] = r.sample(['steps', 'steps', 'solve_step', 'solve'], 2)
         plan['ops'] = []
         return plan
+    r2 = sub_rng(seed, 'plan.c01.stepkw')
+    if r2.random() < 0.1:
+        # settings that arrive as keywords of the very Step that runs the next iteration (Step(constraints=...), Step(penalty=...)),
+        # on a run that is under way and not about to stop: the boundary right after that Step is judged like any other
+        from .. import gen
+        plan = solverplan.gen_solver_plan(seed, tier, ID, dict(KNOBS, p_term=0.0, p_limits=0.0, p_midrun_set=0.0, p_solve=0.0, max_ops=2,
+                                                                small_limits=False, p_vector=0.0))
+        dim = plan['dim']
+        b = next((o['arg'] for o in plan['ops'] if o['op'] == 'set' and o['what'] == 'bounds' and o.get('arg')), None)
+        box = (b['lo'], b['hi']) if b else None
+        for _ in range(r2.randint(1, 3)):
+            plan['ops'].append({'op': 'step', 'n': r2.randint(1, 4)})
+            if r2.random() < 0.5:
+                con = gen.gen_constraint(r2, dim, box, forms=solverplan.DEFAULT_KNOBS['constraint_forms'])
+                if not gen.compatible(con, box): continue
+                plan['ops'].append({'op': 'step', 'n': 1, 'constraint_kw': con})
+            else:
+                plan['ops'].append({'op': 'step', 'n': 1, 'penalty_kw': gen.gen_penalty(r2, dim)})
+            plan['ops'].append({'op': 'step', 'n': r2.randint(1, 3)})
+        return plan
     return solverplan.gen_solver_plan(seed, tier, ID, KNOBS)
 
 def _run_plan(plan):
